@@ -59,7 +59,7 @@ TEXTS = {
          "join-made / promoted-in-place vectors; per-group aggregates against Python's reduction of each group's None-free values)"
          + TR.format("vector.py Vector.max/min/sum/all/any/mean/stdev and the per-group functions of Table.aggregate / Table.window - "
                      "EqReduce.v, 13 theorems: every generated reduction is a function of the None-free cells for ALL instantiations of "
-                     "Python's builtins, = the C06 model and = the property's statement"),
+                     "Python's builtins, = the C06 model and = the property's statement; Vector.isna / dropna - EqNa.v, 4 theorems"),
          TRUST.format(" and the translator") + "mean/stdev arithmetic on floats is a parameter compared with a tolerance.",
          "Rocq proof over the None-handling model; the reductions regenerated from source and re-proved None-insensitive; correspondence exhaustive over None placements"),
  "C07": ("theorems (all vectors/tables, all keys): v[i], v[slice] = Python list slicing for every start/stop/step (slice_length correct, "
